@@ -300,6 +300,71 @@ type c02Wide struct {
 // in every position a decoder treats differently - skipped (unknown member), kept raw, decoded into
 // a slice, a map, interface{}; arrays of objects, of arrays, objects of arrays, mixed. A depth
 // counter that is not decremented on the way out turns the number of siblings into a depth.
+// c02Rec / c02DepthLimit: the nesting limit (10000 levels, as in encoding/json) is counted by every
+// decoder that can contain itself - each keeps its own counter increment and test. Documents exactly
+// at, one below and one and two above the limit, shaped so that the levels are objects into a
+// self-referential struct, arrays into a self-referential slice type, objects into a recursive map,
+// a mix, and untyped values; the verdict must be encoding/json's in every decode configuration.
+type c02Rec struct {
+	A *c02Rec           `json:"a"`
+	E []c02Rec          `json:"e"`
+	M map[string]c02Rec `json:"m"`
+	V int               `json:"v"`
+}
+
+// (self-referential slice and map types - type T []T - cannot be compiled at all: KF-C06-SELFREF)
+
+func c02DepthLimit(c *rt.Ctx, sub0 int) {
+	tower := func(open, close, leaf string, n int) []byte {
+		return []byte(strings.Repeat(open, n) + leaf + strings.Repeat(close, n))
+	}
+	shapes := []struct {
+		name              string
+		open, close, leaf string
+		per               int // nesting levels per repetition
+		mk                func() any
+	}{
+		{"struct-via-pointer", `{"a":`, "}", "null", 1, func() any { return &c02Rec{} }},
+		{"struct-via-slice", `{"e":[`, "]}", `{"v":1}`, 2, func() any { return &c02Rec{} }},
+		{"struct-via-map", `{"m":{"k":`, "}}", `{"v":1}`, 2, func() any { return &c02Rec{} }},
+		{"untyped-arrays", "[", "]", "1", 1, func() any { var v any; return &v }},
+		{"untyped-objects", `{"k":`, "}", "1", 1, func() any { var v any; return &v }},
+		{"slice-of-any", "[", "]", "", 1, func() any { return &[]any{} }},
+	}
+	sub := sub0
+	for _, sh := range shapes {
+		for _, levels := range []int{9998, 9999, 10000, 10001, 10002} {
+			n := levels / sh.per
+			extra := 0
+			if sh.leaf != "" && (sh.leaf[0] == '{' || sh.leaf[0] == '[') {
+				extra = 1
+			}
+			if sh.leaf == "" {
+				extra = 0 // "[" x n + "]" x n: the innermost pair is the n-th level
+			}
+			doc := tower(sh.open, sh.close, sh.leaf, n)
+			depth := n*sh.per + extra
+			sub++
+			if !c.Cur(sub, fmt.Sprintf("shapes=core\nnesting %s, %d levels", sh.name, depth)) {
+				continue
+			}
+			for ci := range decCfgs {
+				cfg := &decCfgs[ci]
+				var gerr error
+				pan, msg, _ := rt.Guard(func() { gerr = cfg.gof(doc, sh.mk()) })
+				serr := cfg.stdf(doc, sh.mk())
+				c.Eval(1)
+				if pan || (gerr != nil) != (serr != nil) {
+					c.Violate(rt.Violation{Monitor: "dec-diff", Entry: cfg.name, Kind: "nesting-limit-verdict", Ctx: fmt.Sprintf("%s:levels=%d", sh.name, depth),
+						Detail: fmt.Sprintf("%d levels of %s: go-json err=%v panic=%v %s; encoding/json err=%v", depth, sh.name, gerr, pan, msg, serr), Sub: sub})
+				}
+			}
+			c.NonTrivial("depth-limit", sh.name, fmt.Sprint(depth))
+		}
+	}
+	c.Obs("nesting_limit_documents", int64(len(shapes)*5))
+}
+
 func c02Siblings(c *rt.Ctx, sub0 int) {
 	rep := func(unit string, n int) string { return strings.TrimSuffix(strings.Repeat(unit+",", n), ",") }
 	vals := map[string]string{
@@ -624,6 +689,7 @@ func init() {
 			rv := c.RNG(0)
 			if c.Idx%256 == 9 {
 				c02Siblings(c, 5000)
+				c02DepthLimit(c, 6000)
 			}
 			if c.Idx%64 == 10 {
 				c02Fresh(c, 6000)
